@@ -29,10 +29,17 @@ use std::time::{Duration, SystemTime, UNIX_EPOCH};
 pub const PTTL_NO_EXPIRE: &[u8] = b"-1";
 pub const PTTL_KEY_NOT_FOUND: &[u8] = b"-2";
 pub const RESTORE_NO_EXPIRE: &[u8] = b"0";
+pub const RESTORE_MIN_EXPIRE: &[u8] = b"1";
 const BUSYKEY_ERROR: &[u8] = b"BUSYKEY";
 
 pub fn pttl_to_restore_expire_time(pttl: Vec<u8>) -> Vec<u8> {
     let mut expire_time = pttl;
+    // PTTL 0 means less than 1ms left, while `RESTORE key 0` means no expire.
+    if let Ok(0) = btoi::btoi::<i64>(&expire_time) {
+        expire_time.clear();
+        expire_time.extend_from_slice(RESTORE_MIN_EXPIRE);
+        return expire_time;
+    }
     if pttl_need_to_be_no_expire(&expire_time) {
         // Reuse this vector
         expire_time.clear();
